@@ -22,7 +22,18 @@ class SegmentTimeline(DashElement):
         self.duration = 0
         for idx, seg in enumerate(timeline):
             t = seg.get('t')
+            if not self.attrs.check_not_none(
+                    seg.get('d'), msg='S@d is mandatory', clause='5.3.9.6'):
+                continue
             duration = int(seg.get('d'), 10)
+            if t is not None and start is not None:
+                # 5.3.9.6: S@t shall be equal to or greater than the sum of
+                # the previous S element earliest presentation time and the
+                # sum of the contiguous segment durations
+                self.attrs.check_greater_or_equal(
+                    int(t, 10), start,
+                    msg=f'S@t {t} overlaps the previous S element that ends at {start}',
+                    clause='5.3.9.6')
             start = int(t, 10) if t is not None else start
             repeat = int(seg.get('r', '0')) + 1
             if not self.attrs.check_not_none(
